@@ -29,6 +29,8 @@ structure GState where
   tbl : Table := {}
   closed : Bool := false
   g : Grammar := {}
+  /-- the token-level reading of `g` (`tokenView`) -/
+  gt : Grammar := {}
   oracle : Option (Std.HashSet (List Tok)) := none
   dynO : Option (List DItem) := none
   opOK : Bool := true
@@ -117,18 +119,34 @@ partial def hasAlias : Rule → Bool
   | .immToken a => hasAlias a
   | _ => false
 
+/-- an alias on something other than a reference to a non-terminal rule (a default alias on a token
+renames the token: outside the token-level reading) -/
+partial def hasTermAlias (g : Grammar) : Rule → Bool
+  | .alias _ _ a =>
+    (match coreRule a with
+     | .sym x => match g.body x with
+       | some b => isTerminalBody b
+       | none => true
+     | _ => true) || hasTermAlias g a
+  | .seq a b => hasTermAlias g a || hasTermAlias g b
+  | .choice a b => hasTermAlias g a || hasTermAlias g b
+  | .rep a => hasTermAlias g a
+  | .rep1 a => hasTermAlias g a
+  | .field _ a => hasTermAlias g a
+  | .prec _ _ a => hasTermAlias g a
+  | _ => false
+
 /-- the grammars whose table symbols carry the names the token-level semantics `DerivesTok` talks
-about: simple terminals, no aliases (a default alias renames a table symbol), no hidden terminal rules
-(their token carries the string's name), no non-terminal extras; for these a failing `relOK` is an alarm -/
+about: simple terminals, no aliases (a default alias renames a table symbol), no non-terminal extras; hidden terminal
+rules and other whole-rule terminals that stay non-terminals are read through `tokenView`; for these a failing `relOK` is an alarm -/
 def relScope (g : Grammar) (tbl : Table) : Bool :=
-  simpleTerminals g && !(g.rules.any fun e => hasAlias e.2) &&
-  -- a rule whose body is a single terminal but which is a NON-terminal of the table (the start rule, or
-  -- a literal shared by several rules) is read as a token by `DerivesTok`: outside its reading
-  !((List.range tbl.symbolCount).any fun y => y ≥ tbl.tokenCount &&
+  simpleTerminals g && !(g.rules.any fun e => hasTermAlias g e.2) &&
+  -- `g` is the `tokenView`: its token rules must be exactly the rules that are terminals of the table
+  -- (a mismatch means the absorption rule was predicted wrongly, e.g. a pattern shared by two rules)
+  ((List.range tbl.symbolCount).all fun y =>
       match g.body (tbl.symName y) with
-      | some b => isTerminalBody b
-      | none => false) &&
-  !(g.rules.any fun e => isTerminalBody e.2 && g.hidden e.1) &&
+      | some b => isTerminalBody b == decide (y < tbl.tokenCount) || !(tbl.syms.getD y default).named && y < tbl.tokenCount
+      | none => true) &&
   g.extras.all fun e => match e with
     | .sym x => match g.body x with
       | some b => isTerminalBody b
@@ -138,9 +156,11 @@ def relScope (g : Grammar) (tbl : Table) : Bool :=
 def onReady (s : GState) : GState × String :=
   let tbl := Table.ofLines s.tableLines.toList
   let closed := tableClosed tbl
-  let g := match parseGrammar s.gjson with
+  let g0 := match parseGrammar s.gjson with
     | some g => reorder g s.order
     | none => {}
+  -- everything token-level (oracle, relOK, coverOK, completeOK) reads the grammar through `tokenView`
+  let g := tokenView g0
   let simple := simpleTerminals g
   let (oracle, langSize, fix) :=
     if s.exh > 0 && simple && s.terms.size > 0 then
@@ -152,6 +172,11 @@ def onReady (s : GState) : GState × String :=
       if r.2 then some r.1 else none
     else none
   let safe := tableSafe tbl
+  -- non-terminals that carry a default alias' name are validated under the rule's name (`renameNT`:
+  -- names of non-terminals are immaterial, `parser_sound_renamed` / `parser_complete_renamed`)
+  let ren := findRen g tbl
+  let tbl0 := tbl
+  let tbl := renameNT tbl0 ren
   let prods := if safe && tbl.stateCount ≤ 250 then prodList tbl else []
   let aux := if safe && tbl.stateCount ≤ 250 then findAux g tbl prods else []
   let (rel, nprods, badProd) :=
@@ -201,12 +226,12 @@ def onReady (s : GState) : GState × String :=
     if s.kind != "cfg" || !hasPrecs || (cover == "true" && complete == "true") then 0
     else if cover == "true" && !badStates.isEmpty then 1 else 2
   let opOK := match s.optable with
-    | some t => decide (g.rules = opGrammarRules t)
+    | some t => decide (g0.rules = opGrammarRules t)
     | none => true
   let termsOK := s.terms.all fun t =>
     let i := tbl.syms.getD t.sym default
     i.name == t.tok.name && t.sym < tbl.tokenCount
-  ({ s with tbl := tbl, closed := closed, g := g, oracle := oracle, opOK := opOK, dynO := dynO, exempt := exempt, badStates := badStates },
+  ({ s with tbl := tbl0, closed := closed, g := g0, gt := g, oracle := oracle, opOK := opOK, dynO := dynO, exempt := exempt, badStates := badStates },
    s!"G {s.gid} kind={s.kind} closed={closed} rootsafe={rootSafe tbl} tablesafe={safe} cover={cover} complete={complete} prec={hasPrecs} multi={((List.range tbl.stateCount).map fun q => ((tbl.acts.getD q []).filter fun e => e.2.length > 1).length).foldl (· + ·) 0} exempt={exempt} items={nitems} rel={rel} relscope={relScope g tbl} prods={nprods} badprod={badProd.replace " " "_"} states={tbl.stateCount} symbols={tbl.symbolCount} rules={g.rules.length} " ++
    s!"repconflict={suspiciousRepetitionCells tbl} simple={simple} oracle={oracle.isSome} dyn={dynO.isSome} L={s.exh} lang={langSize} fix={fix} opgrammar={opOK} resolvable={match s.optable with | some t => toString t.resolvable | none => "na"} terms={termsOK} nterm={s.terms.size}")
 
@@ -270,7 +295,7 @@ def runCase (s : GState) : String :=
               | some m => s!"tree:{m}"
   -- judge on the implementation's outputs
   let w : List Tok := s.toks.map fun i => (s.terms.getD i default).tok
-  let wNoExtra := stripExtras s.g w
+  let wNoExtra := stripExtras s.gt w
   let member : Option Bool :=
     match s.oracle with
     | some set => if s.isT && s.toks.length ≤ s.exh then some (set.contains wNoExtra) else none
